@@ -220,6 +220,22 @@ class Program:
                     self._class_members(ci)
                 elif isinstance(n, (ast.FunctionDef, ast.AsyncFunctionDef)):
                     self._add_func(m, n, n.name, None, None)
+        # a class attribute bound to a module-level function (`_kernel = staticmethod(_module_kernel)`, or the bare name) is a
+        # method under another name: register a copy of the function as that method so that every rule resolves it as before
+        import copy as _copy
+        for ci in self.classes.values():
+            for name, v in list(ci.class_assigns.items()):
+                static = isinstance(v, ast.Call) and isinstance(v.func, ast.Name) and v.func.id == 'staticmethod' and len(v.args) == 1 and not v.keywords
+                target = v.args[0] if static else v
+                if isinstance(target, ast.Name) and target.id in ci.mod.funcs and name not in ci.methods:
+                    node = _copy.deepcopy(ci.mod.funcs[target.id])
+                    node.name = name
+                    if static:
+                        node.decorator_list = [ast.copy_location(ast.Name(id='staticmethod', ctx=ast.Load()), node)] + list(node.decorator_list)
+                    f = self._add_func(ci.mod, node, ci.name + '.' + name, ci, None)
+                    f.alias_of = target.id
+                    ci.methods[name] = f
+                    del ci.class_assigns[name]
         for ci in self.classes.values():
             for b in ci.node.bases:
                 r = self.resolve(ci.mod, b)
